@@ -194,6 +194,12 @@ struct Run{
     // a sanitizer report inside Evolve belongs to the property being checked when that is C04/C10 (the defect shows up as a memory error first)
     begin("evolve",(prop=="C04"||prop=="C10")?prop.c_str():(c.moved_in_run?"C10":"C15"));
     if(have_plan_sc) sc=plan_sc; else { plan_sc=sc; have_plan_sc=true; }
+    // a fixed step count chosen for another (shorter, or empty) segment is raised to what this segment needs, as a user would before a longer
+    // Evolve: with too few steps the error leaves even the loose bounds and GSL rejects the step, which says nothing about SQuIDS
+    if(!sc.adaptive && !sc.is_sim() && sc.abs>=0.05 && dt>0){
+      double per=(sc.name=="rk2")?0.004:(sc.name=="rk8pd"?0.15:0.04); unsigned need=(unsigned)std::min(20000.0,std::ceil(dt*9.0/per)+10);
+      if(sc.nsteps<need){ sc.nsteps=need; plan_sc.nsteps=need; if(!need_apply){ need_apply=true; apply_all=false; } c.ctr->add("probe_fixed_step_count_raised_for_segment"); }
+    }
     StepCfg saved=sc;
     if(hmin_raised){ sc.reject=0; sc.fail=0; if(sc.adaptive){ sc.abs=std::max(sc.abs,1e-4); sc.rel=std::max(sc.rel,1e-4); } if(sc.h<cur_hmin) sc.h=cur_hmin*10; }
     if(need_apply){ apply_stepper(live); need_apply=false; }
